@@ -37,8 +37,8 @@ RULE = ("random histories of 2-14 operations (add_charge_array float64/32/16, ad
         "index is below the jit quota is also executed under the JIT and under the bounds-checking JIT")
 ASSUMPTIONS = [
     "the semantics of a removal that empties the cluster table is not fixed by the statement (array keeps stale "
-    "content today): such removals are recorded (remove_all_* counters), followed by a reset, and not judged "
-    "unless STRICT_REMOVE_ALL is switched on",
+    "content before fix 51c48c8): STRICT_REMOVE_ALL (on since that fix) judges it as 'the removed charge is no longer "
+    "reported'; 60 % of such removals are followed by more additions without a reset, 40 % by a reset",
     "NaN/inf positions and negative charge are outside the statement and not generated",
     "numba JIT modes recompile the binning kernel at every read (0.1 s): they run a prefix of the histories",
     "memory corruption that kills the worker later than the offending history is reported as inconclusive",
@@ -49,7 +49,7 @@ REQUIRED_COUNTERS = [
     "compares_mode_jit", "compares_mode_boundscheck", "compares_mode_nojit", "compares_with_outside_live",
     "frame_rows_checked", "histories_sparse_reads",
     "array_adds_buffer_first_use", "array_adds_buffer_refilled", "array_adds_buffer_readded_unchanged",
-    "caller_arrays_checked",
+    "caller_arrays_checked", "remove_all_then_history_continues",
 ]
 TIMEOUT = {"quick": 900, "thorough": 7200}
 
@@ -310,7 +310,7 @@ def gen_history(rng):
     sparse_reads = rng.random() < 0.3
     n_ops = rng.randint(2, 14)
     weights = [("add_array", 5), ("add_cluster", 5), ("add_df", 3), ("read_array", 2), ("read_frame", 2),
-               ("remove", 3), ("reset", 1), ("remove_all", 0.35)]
+               ("remove", 3), ("reset", 1), ("remove_all", 0.9)]
     names = [n for n, _ in weights]
     wts = [x for _, x in weights]
     ops = []
@@ -623,6 +623,12 @@ class Runner:
                     abs(float(got[r, c]) - exp[r][c]) > ledger.tolerance(r, c)
                     for r in range(ledger.rows) for c in range(ledger.cols))
                 rec.count("remove_all_stale_array_reported" if stale else "remove_all_charge_left")
+            self.border_live = False
+            if STRICT_REMOVE_ALL and sel.random() < 0.6:
+                # the history goes on WITHOUT a reset: array and cluster additions after a removal that
+                # emptied the table are "charge added since the last reset" like any other
+                rec.count("remove_all_then_history_continues")
+                return False
             # resynchronise: a reset returns everything to zero whatever happened before
             self.guarded(k, "reset", charge.empty, ledger)
             ledger.reset()
